@@ -193,7 +193,8 @@ def run_lines(lines, jobs=NCPU):
     """lines: `family\\tpayload`. Returns list of (family, payload, impl, model, verdict)."""
     if not lines:
         return []
-    nchunks = max(1, min(jobs * 2, len(lines) // 50 + 1))
+    heavy = lines[0].split("\t")[0] in ("watchdog", "orders", "pipeline")
+    nchunks = max(1, min(jobs * 2, len(lines) // (2 if heavy else 50) + 1))
     size = (len(lines) + nchunks - 1) // nchunks
     chunks = [(i, lines[i * size:(i + 1) * size]) for i in range(nchunks)]
     out = []
